@@ -153,6 +153,14 @@ pub trait Transport: Send + Sync {
     /// Creates a symbolic link at `dest` pointing to `target`.
     async fn create_symlink(&self, target: &Path, dest: &Path) -> Result<()>;
 
+    /// Read the target of a symbolic link at `path` without following it
+    ///
+    /// Returns `Ok(None)` when `path` is not a symbolic link (or the transport
+    /// cannot tell, which is the default).
+    async fn read_link(&self, _path: &Path) -> Result<Option<std::path::PathBuf>> {
+        Ok(None)
+    }
+
     /// Read file contents into a vector
     ///
     /// This is used for cross-transport operations (e.g., remote→local).
@@ -280,6 +288,10 @@ impl<T: Transport + ?Sized> Transport for std::sync::Arc<T> {
 
     async fn create_symlink(&self, target: &Path, dest: &Path) -> Result<()> {
         (**self).create_symlink(target, dest).await
+    }
+
+    async fn read_link(&self, path: &Path) -> Result<Option<std::path::PathBuf>> {
+        (**self).read_link(path).await
     }
 
     async fn read_file(&self, path: &Path) -> Result<Vec<u8>> {
